@@ -4,7 +4,7 @@ use std::borrow::Cow;
 
 use winnow::{
     ascii::{space0, space1},
-    combinator::{cond, cut_err, opt, preceded, repeat, terminated, trace},
+    combinator::{cond, cut_err, not, opt, preceded, repeat, terminated, trace},
     error::StrContext,
     stream::{AsChar, Stream, StreamIsPartial},
     token::{one_of, take_while},
@@ -50,7 +50,11 @@ where
         let posts = repeat(
             0..,
             preceded(
-                take_while(1.., b" \t"),
+                // line only with spaces is not a posting, but the end of the transaction.
+                (
+                    take_while(1.., b" \t"),
+                    not(character::line_ending_or_eof),
+                ),
                 cut_err(Deco::decorate_parser(posting::posting)),
             ),
         )
